@@ -1,13 +1,54 @@
 """C06 — Ring buffer never deadlocks or loses a wake-up; write, drain and join terminate."""
 from props.ring_common import *
+from vlib import *
 from props.ring_gens import gen_blocking
 
 PROPS = "theories/Props/C06.v"
 RULE = ('as C04 with emphasis on the blocking wait strategy with spurious wake-ups, zero-event pipelines, tiny rings; outcome of the scheduler: all managed threads finished vs. deadlock (no enabled thread) vs. step budget exhausted vs. panic inside the library')
 
 
+def idle_phase(run):
+    """REAL-TIME probes (plain build, real threads): a pipeline whose handler waits IDLE for 0.3 - 1.5 s (10^8 polls of a spinning
+    handler; a parked one under the blocking strategy) before the first write must still complete write, drain and join, and its
+    handler must see every event (single producer: all but sequence 0, finding D7). The scheduler-controlled runs cannot reach such
+    poll counts within their step budget."""
+    b, log = cargo_build("ds")
+    if not b:
+        fatal(run, "cargo build of harness/ds against /repo failed", log)
+    probes = [(0, 0, 1500, 3), (1, 0, 300, 3), (0, 1, 900, 3), (1, 1, 300, 2)]
+    if run.thorough: probes += [(0, 0, 4000, 5), (0, 1, 3000, 4)]
+    n_ok = 0
+    for (block, multi, idle, n) in probes:
+        ln = f"idleprobe {block} {multi} {idle} {n}"
+        rc, outs, err = run_lines(b, [ln], line_timeout=30)
+        run.cov["evaluations"] += 1
+        got = outs[0].split() if outs else ["<no answer>"]
+        want = ["1", str(n if multi else n - 1)]
+        if got == want:
+            n_ok += 1; continue
+        run.violation({"kind": "property-oracle-failed-on-implementation", "finding": "idle-probe",
+                       "what": f"{'blocking' if block else 'spinning'} wait, {'multi' if multi else 'single'} producer: after the handler had waited idle for {idle} ms, "
+                               f"write / drain / join of {n} events answered {' '.join(got)} (expected {' '.join(want)}: 1 = all returned, then the events the handler saw; -888 = no return within 4 s)",
+                       "harness_line": ln, "expected": " ".join(want), "idle": True, "rerun": "cd /verif && python3 bin/check.py C06 --replay <this file>"})
+        break
+    return {"idle_probes": {"issued": len(probes), "completed_as_required": n_ok}}
+
+
 def main():
-    run_ring_property("C06", PROPS, gen_blocking, RULE)
+    run_ring_property("C06", PROPS, gen_blocking, RULE, extra_phase=idle_phase)
 
 
-replay = replay_ring("C06")
+_replay = replay_ring("C06")
+
+
+def replay(path):
+    import json
+    d = json.load(open(path))
+    if d.get("idle"):
+        b, log = cargo_build("ds")
+        rc, outs, err = run_lines(b, [d["harness_line"]], line_timeout=30)
+        got = outs[0] if outs else "<no answer>"
+        print("expected:", d["expected"], " got:", got)
+        print("REPRODUCED" if got.split() != d["expected"].split() else "not reproduced")
+        return 1 if got.split() != d["expected"].split() else 0
+    return _replay(path)
